@@ -1,5 +1,5 @@
 """C04 -- transitions stay inside the static-timing window and move rigidly with inputs."""
-from contracts import wave_c, wave_comp_c
+from contracts import wave_c, wave_comp_c, wave_kernels_c
 from pyvc.verify import verify
 from vk.common import PropertyResult
 from bounded import wave_parts
@@ -13,7 +13,7 @@ def run(tier, seed):
                          '(the forced-emission rule cannot fire). The netlist-level window is the induction over the op list (on paper / bounded). The relational clauses '
                          '(rigid shift, power-of-two scaling) need a two-run product and are bounded only. Tier B (bounded): STA window, shift by +-2^k, scaling by 2^+-k (down to '
                          '2^-24), monotonicity on real runs over the circuit space on a dyadic grid.')
-    res.report = verify(wave_c.targets(stage3=True) + wave_comp_c.targets(), timeout_s=30 if tier == 'quick' else 120)
+    res.report = verify(wave_c.targets(stage3=True) + wave_comp_c.targets() + wave_kernels_c.targets_c13(), timeout_s=30 if tier == 'quick' else 120)
     res.bounded = [wave_parts.part_c04(tier, seed)]
     res.assumptions = ['A-float (extended-real time stamps, exact finite arithmetic); the stage-1/2 invariants of _wave_eval are assumed in this configuration (they are proved in C03 '
                        'under weaker requires)', 'shift / scale invariance: bounded only (relational)', 'induction from the per-op window to the netlist-level STA window: paper + bounded']
